@@ -336,6 +336,8 @@ fn run_gm<B: BmCtl>() -> RunInfo {
     let mut log: Vec<String> = Vec::new();
     let (mut ok_ops, mut rejected) = (0, 0);
     let prop_result = "C03";
+    // pages owed a dirty mark: written since the last reset that covered them (tracked worlds)
+    let mut owed: Vec<BTreeSet<usize>> = vec![BTreeSet::new(); w.regs.len()];
     for step in 0..nops {
         if !cx().violations.is_empty() {
             break;
@@ -352,7 +354,20 @@ fn run_gm<B: BmCtl>() -> RunInfo {
                 1 => reg.bitmap().reset_range(a, l),
                 _ => reg.bitmap().harvest(),
             });
-            log.push(format!("bitmap of region {}: {}", i, ["reset()", "reset_addr_range", "get_and_reset()"][what as usize]));
+            log.push(format!("bitmap of region {}: {}", i, [format!("reset()"), format!("reset_addr_range({}, {})", a, l), format!("get_and_reset()")][what as usize]));
+            // history form of C05: a page written since the last reset that covered it is still dirty
+            if what == 1 {
+                for p in a / page_sizes[i]..=(a + l - 1) / page_sizes[i] {
+                    owed[i].remove(&p);
+                }
+            } else {
+                owed[i].clear();
+            }
+            let now_pages = snapshot_pages(&w, &page_sizes);
+            if let Some(p) = owed[i].iter().find(|p| !now_pages[i].contains(p)) {
+                cx().violate("C05", "C05/reset-cleared-too-much", "a reset cleared a page outside its range".into(), format!("step {} {}: page {} of region {} (page size {}) was written after the last reset that covered it, the reset just made does not cover it, but it is clean now", step, log.last().unwrap(), p, i, page_sizes[i]));
+                break;
+            }
         }
         // now and then the map is replaced by one derived with remove_region / insert_region
         if !tracked && cx().a(6) == 0 {
@@ -407,6 +422,9 @@ fn run_gm<B: BmCtl>() -> RunInfo {
         for (i, r) in w.regs.iter().enumerate() {
             let now = raw_read(w.ptrs[i], r.size);
             for k in 0..r.size {
+                if now[k] != before_bytes[i][k] {
+                    owed[i].insert(k / page_sizes[i]);
+                }
                 if now[k] != before_bytes[i][k] && !after_pages[i].contains(&(k / page_sizes[i])) {
                     cx().violate("C05", "C05/unmarked-write", format!("{} left a changed byte clean", st.kind), format!("step {} {}: byte {} of region {} (page size {}) changed but page {} is clean (layout {:?})", step, line, k, i, page_sizes[i], k / page_sizes[i], w.describe()));
                     break;
